@@ -766,7 +766,7 @@ class C09:
                    "state of fibers on the caller chain after an uncaught failure is not asserted (the run ends)"]
 
     def configs(self, tier):
-        return ["checked", "release", "checked+hooks"]
+        return ["checked", "release", "checked+hooks", "release+debug_stress_gc"]
 
     def plan(self, tier):
         return 15000 if tier == "quick" else 400000
@@ -784,7 +784,7 @@ class C09:
                 site = "s%d" % rng.range(1, ir["sites"])
                 faults.setdefault(site, {})[str(rng.range(1, 3))] = rng.choice(ERROR_KINDS)
         tape = make_tape(rng, ir, faults)
-        return {"ir": ir, "tape": tape, "faults": faults, "gc_slice": (idx % 8 == 0)}
+        return {"ir": ir, "tape": tape, "faults": faults, "gc_slice": (idx % 8 == 0), "mc_slice": (idx % 100 == 50)}
 
     def check(self, sc, ctx):
         stats = Stats()
@@ -823,6 +823,9 @@ class C09:
         configs = [("checked", None), ("release", None)]
         if sc.get("gc_slice"):
             configs.append(("checked+hooks", {"gc": {"mode": "always", "quarantine": True}}))
+        if sc.get("mc_slice"):
+            # the optimised build (raw active-fiber pointer, unchecked stack) collecting at every allocation, under valgrind
+            configs.append(("release+debug_stress_gc@memcheck", None))
         for config, cfg in configs:
             run_sc = dict(sc, config=cfg) if cfg else sc
             h = ctx.run(config, run_sc)
